@@ -416,58 +416,71 @@ func runC16(c *Collector, r *Rng, thorough bool) {
 			z.Rsh(z, uint(excess))
 		}
 		for sl := 1; sl <= ci.n; sl++ {
-			var kk, rr, ss, dd *big.Int
-			for tries := 0; tries < 50; tries++ {
-				kk = new(big.Int).SetBytes(r.Bytes(ci.n))
-				kk.Mod(kk, prm.N)
-				if kk.Sign() == 0 {
-					continue
-				}
-				x, _ := ci.curve.ScalarBaseMult(kk.Bytes())
-				rr = new(big.Int).Mod(x, prm.N)
-				sb := r.Bytes(sl)
-				sb[0] |= 1
-				if sl == ci.n {
-					sb[0] &= byte(0xff >> uint(8*ci.n-prm.N.BitLen()+1)) // stay below N
-					if sb[0] == 0 {
-						sb[0] = 1
+			for _, topSet := range []bool{true, false} {
+				for _, rlen := range []int{ci.n, ci.n - 1} {
+					var kk, rr, ss, dd *big.Int
+					for tries := 0; tries < 50; tries++ {
+						kk = new(big.Int).SetBytes(r.Bytes(ci.n))
+						kk.Mod(kk, prm.N)
+						if kk.Sign() == 0 {
+							continue
+						}
+						x, _ := ci.curve.ScalarBaseMult(kk.Bytes())
+						rr = new(big.Int).Mod(x, prm.N)
+						sb := r.Bytes(sl)
+						sb[0] |= 1
+						if topSet {
+							sb[0] |= 0x80
+						} else {
+							sb[0] &= 0x7f
+							if sb[0] == 0 {
+								sb[0] = 1
+							}
+						}
+						if sl == ci.n {
+							sb[0] &= byte(0xff >> uint(8*ci.n-prm.N.BitLen()+1)) // stay below N
+							if sb[0] == 0 {
+								sb[0] = 1
+							}
+						}
+						ss = new(big.Int).SetBytes(sb)
+						if rr.Sign() == 0 || ss.Sign() == 0 || ss.Cmp(prm.N) >= 0 || len(ss.Bytes()) != sl || len(rr.Bytes()) != rlen || (ss.Bytes()[0]&0x80 != 0) != topSet {
+							dd = nil
+							continue
+						}
+						dd = new(big.Int).Mul(ss, kk)
+						dd.Sub(dd, z)
+						dd.Mul(dd, new(big.Int).ModInverse(rr, prm.N))
+						dd.Mod(dd, prm.N)
+						if dd.Sign() != 0 {
+							break
+						}
+						dd = nil
+					}
+					if dd == nil {
+						continue
+					}
+					qx, qy := ci.curve.ScalarBaseMult(dd.Bytes())
+					pub := &ecdsa.PublicKey{Curve: ci.curve, X: qx, Y: qy}
+					if !ecdsa.Verify(pub, digest, rr, ss) {
+						continue // the construction is checked against the standard library first
+					}
+					vf2, err := cose.NewVerifier(ci.alg, pub)
+					if err != nil {
+						continue
+					}
+					sig := append(rr.FillBytes(make([]byte, ci.n)), ss.FillBytes(make([]byte, ci.n))...)
+					rep := map[string]any{"curve": ci.name, "sig": hx(sig), "x": qx.String(), "y": qy.String(), "s_octets": sl, "r_octets": len(rr.Bytes())}
+					c.Eval("verify/crafted-s-length/"+ci.name, fmt.Sprint(sl, topSet, rlen), true)
+					var e1, e2 error
+					if p, v := protect(func() { e1 = vf2.Verify(msg, sig); e2 = vf2.(cose.DigestVerifier).VerifyDigest(digest, sig) }); p {
+						c.Fail("C16/panic", fmt.Sprint("Verify panicked: ", v), rep)
+						continue
+					}
+					if e1 != nil || e2 != nil {
+						c.Fail("C16/verify-verdict", fmt.Sprintf("a valid fixed-width signature whose s has %d significant octets (r: %d) is refused: Verify=%v VerifyDigest=%v", sl, len(rr.Bytes()), e1, e2), rep)
 					}
 				}
-				ss = new(big.Int).SetBytes(sb)
-				if rr.Sign() == 0 || ss.Sign() == 0 || ss.Cmp(prm.N) >= 0 || len(ss.Bytes()) != sl {
-					continue
-				}
-				dd = new(big.Int).Mul(ss, kk)
-				dd.Sub(dd, z)
-				dd.Mul(dd, new(big.Int).ModInverse(rr, prm.N))
-				dd.Mod(dd, prm.N)
-				if dd.Sign() != 0 {
-					break
-				}
-				dd = nil
-			}
-			if dd == nil {
-				continue
-			}
-			qx, qy := ci.curve.ScalarBaseMult(dd.Bytes())
-			pub := &ecdsa.PublicKey{Curve: ci.curve, X: qx, Y: qy}
-			if !ecdsa.Verify(pub, digest, rr, ss) {
-				continue // the construction is checked against the standard library first
-			}
-			vf2, err := cose.NewVerifier(ci.alg, pub)
-			if err != nil {
-				continue
-			}
-			sig := append(rr.FillBytes(make([]byte, ci.n)), ss.FillBytes(make([]byte, ci.n))...)
-			rep := map[string]any{"curve": ci.name, "sig": hx(sig), "x": qx.String(), "y": qy.String(), "s_octets": sl, "r_octets": len(rr.Bytes())}
-			c.Eval("verify/crafted-s-length/"+ci.name, fmt.Sprint(sl), true)
-			var e1, e2 error
-			if p, v := protect(func() { e1 = vf2.Verify(msg, sig); e2 = vf2.(cose.DigestVerifier).VerifyDigest(digest, sig) }); p {
-				c.Fail("C16/panic", fmt.Sprint("Verify panicked: ", v), rep)
-				continue
-			}
-			if e1 != nil || e2 != nil {
-				c.Fail("C16/verify-verdict", fmt.Sprintf("a valid fixed-width signature whose s has %d significant octets (r: %d) is refused: Verify=%v VerifyDigest=%v", sl, len(rr.Bytes()), e1, e2), rep)
 			}
 		}
 	}
